@@ -4633,6 +4633,10 @@ class TensorDictBase(MutableMapping):
         Returns: self
 
         """
+        if self._is_locked:
+            # permitted under lock: the reads memoised by this tensordict and by the
+            # tensordicts that hold it (flatten_keys, detach, ...) carry the old device
+            self._erase_cache_up()
         self._device = None
         for value in self.values():
             if _is_tensor_collection(type(value)):
@@ -4640,6 +4644,8 @@ class TensorDictBase(MutableMapping):
         return self
 
     def _set_device(self, device: torch.device) -> T:
+        if self._is_locked:
+            self._erase_cache_up()
         self._device = device
         for value in self.values():
             if _is_tensor_collection(type(value)):
